@@ -15,6 +15,7 @@ from contracts.common import *  # noqa
 from contracts import common, cli_c, c18
 from contracts.cli_c import *  # noqa
 from contracts.c18 import unit_handle_reports, unit_emit_report  # noqa
+from contracts.compiler_c import unit_link_files  # noqa
 from pyvc import driver, frames
 
 ID = "C07"
@@ -97,7 +98,10 @@ def unit_rac(eng, tier="quick"):
               ("err-then-warn", "a: a:\n.byte\nmake_raw\n", 1), ("warn-then-err", ".byte\na: a:\nmake_raw\n", 1), ("err-then-filtered-warn", "a: a:\nmov @(r1), r2\nmake_raw\n", 1),
               ("parse-err-then-warn", "r0: nop\n.byte\nmake_raw\n", 1), ("two-errors", "a: a:\nb: b:\nmake_raw\n", 1),
               # a diagnostic on the very last line of a file that has no final newline, and at the end-of-file position
-              ("warn-last-line-no-newline", "make_raw\nmov #1, r0\n.word", 0), ("err-last-line-no-newline", "make_raw\n.word 200000", 1), ("warn-at-eof", "make_raw\nnop\n.word\n", 0)]
+              ("warn-last-line-no-newline", "make_raw\nmov #1, r0\n.word", 0), ("err-last-line-no-newline", "make_raw\n.word 200000", 1), ("warn-at-eof", "make_raw\nnop\n.word\n", 0),
+              # an error in a definition that no statement uses (it is evaluated only because every symbol is resolved at the end); with and without --lst
+              ("err-unused-undefined", "limit = top - 2\nnop\nmake_raw\n", 1), ("err-unused-divzero-later", "x = y / z\nz = 0\ny = 1\nnop\nmake_raw\n", 1),
+              ("err-unused-label-expr", "nop\nq = e - zz\ne:\nmake_raw\n", 1)]
     wsel = [[], ["-Wall"], ["-Wno-implicit-operand"], ["-Wmeta-typo", "-Wno-not-implemented"]]
     if tier == "quick":
         wsel = wsel[:3]
@@ -107,12 +111,12 @@ def unit_rac(eng, tier="quick"):
     try:
         for name, src, want in faults:
             ref = None
-            for fmt, ws in itertools.product(("bare", "graphical"), wsel):
-                wd = os.path.join(d, "%s-%s-%d" % (name, fmt, wsel.index(ws)))
+            for fmt, ws, lst in itertools.product(("bare", "graphical"), wsel, ((True, False) if name.startswith("err-unused") else (True,))):
+                wd = os.path.join(d, "%s-%s-%d-%s" % (name, fmt, wsel.index(ws), lst))
                 os.makedirs(wd)
                 open(os.path.join(wd, "p.mac"), "w").write(src)
                 p = subprocess.run(["/venv/bin/python", "-c", "import sys; sys.path.insert(0, %r); sys.argv = ['pdpy11'] + sys.argv[1:]; from pdpy11._cli import main_cli; main_cli()" % driver.tree_root(),
-                                    "p.mac", "--report-format", fmt, "--lst"] + ws, cwd=wd, capture_output=True, text=True, timeout=120)
+                                    "p.mac", "--report-format", fmt] + (["--lst"] if lst else []) + ws, cwd=wd, capture_output=True, text=True, timeout=120)
                 files = {f: open(os.path.join(wd, f), "rb").read() for f in sorted(os.listdir(wd)) if f != "p.mac"}
                 n += 1
                 res = (p.returncode, files)
@@ -213,6 +217,9 @@ def units(tier):
             us.append(("emit_report[%s,%s]" % (p, latched), "unit_emit_report", dict(prio=p, latched=latched)))
     for sh in cli_c.EMIT_SHAPES:
         us.append(("emit_files[%s]" % ",".join(sh), "unit_emit_files", dict(shape=sh)))
+    # every definition is evaluated inside the reporting scope (an error in a symbol nobody uses still fails the build): compile_and_link_files
+    for kinds in (("ready",), ("lazy",), ("ready", "lazy"), ("lazy", "lazy", "ready")):
+        us.append(("link[%d,%s]" % (len(kinds), "".join(k[0] for k in kinds)), "unit_link_files", dict(nfiles=len(kinds), kinds=kinds, settle_in=None)))
     # the same obligations under every report format and -W selection: neither may change status, files or bytes
     for rf in ("bare", "graphical"):
         for ws in (["all"], ["no-implicit-operand"], ["meta-typo"], ["no-default", "no-meta-typo"], ["nosuch-warning", "no-all"]):
